@@ -265,6 +265,19 @@ func (w *World) Run(sc *Scenario, o RunOpts) *Outcome {
 	cmd := exec.Command(bin, argv...)
 	cmd.Dir = work
 	cmd.Stdin = stdin
+	if sc.StdinDelayMs > 0 && hasStdin {
+		pr, pw, perr := os.Pipe()
+		if perr != nil {
+			harnessPanic("pipe %v", perr)
+		}
+		cmd.Stdin = pr
+		defer pr.Close()
+		go func(data []byte, d time.Duration) {
+			time.Sleep(d)
+			_, _ = pw.Write(data)
+			_ = pw.Close()
+		}(append([]byte{}, stdinData...), time.Duration(sc.StdinDelayMs)*time.Millisecond)
+	}
 	var so, se bytes.Buffer
 	cmd.Stdout = &so
 	if sc.StdoutDevFull {
